@@ -808,6 +808,12 @@ pub fn run_faults<C: KeyColl>(tr: &mut Trace, paths: &[(usize, Vec<KOp>)], keys:
                 }
                 let _ = done;
                 s.apply(&KOp::Lt { t, p: keys + 1 }, 0);
+                // ... and one instant later (an entry that was stored by the unwound call must expire on time)
+                if matches!(call, KOp::Ins { .. }) && t < tmax + 1 {
+                    for p in 0..=keys + 1 {
+                        s.apply(&KOp::Get { t: t + 1, k: p }, 0);
+                    }
+                }
                 if !unwound {
                     break;
                 }
@@ -948,7 +954,10 @@ pub fn run_scale<C: KeyColl>(tr: &mut Trace, seed: u64, rounds: &str, deep: i32)
         // the call: every callback index of a query / an insertion that has to purge them panics in
         // turn; afterwards everything is looked at, at that time and later
         let exps = [20, 3, 20, 20, 3, 20, 20, 20, 3, 20, 20, 20];
-        for (oi, op) in [KOp::Le { t: 5, p: 13 }, KOp::Ins { k: 13, e: 20, v: 13209, t: 5 }, KOp::Get { t: 5, k: 6 }, KOp::Lt { t: 5, p: 2 }].iter().enumerate() {
+        for (oi, op) in [KOp::Le { t: 5, p: 13 }, KOp::Ins { k: 13, e: 20, v: 13209, t: 5 }, KOp::Get { t: 5, k: 6 }, KOp::Lt { t: 5, p: 2 }, KOp::Ins { k: 13, e: 6, v: 13069, t: 5 }, KOp::Ins { k: 0, e: 7, v: 79, t: 4 }]
+            .iter()
+            .enumerate()
+        {
             let mut j = 1u64;
             loop {
                 s.snap_every = 1;
@@ -962,7 +971,7 @@ pub fn run_scale<C: KeyColl>(tr: &mut Trace, seed: u64, rounds: &str, deep: i32)
                 }
                 s.apply(op, j);
                 let unwound = s.last_unwound;
-                for t in [5, 6] {
+                for t in [5, 6, 7, 8] {
                     probes(&mut s, t, 14);
                 }
                 if !unwound || j > 80 {
@@ -970,6 +979,50 @@ pub fn run_scale<C: KeyColl>(tr: &mut Trace, seed: u64, rounds: &str, deep: i32)
                 }
                 j += 1;
             }
+        }
+    }
+    if rounds.contains('G') {
+        // 200 entries whose expirations are in no relation to their key order; look-ups between the
+        // expirations (an entry that expires earlier sits behind one that expires later, and vice versa)
+        s.snap_every = 16;
+        s.obs_every = 8;
+        s.keys = 201;
+        s.reset(0);
+        let n = 200;
+        for k in 1..=n {
+            let e = 10 + (k * 37) % 90;
+            let v = s.next_value(k, e);
+            s.apply(&KOp::Ins { k, e, v, t: 0 }, 0);
+        }
+        for t in [5, 15, 20, 33, 50, 60, 77, 95, 101] {
+            for _ in 0..24 {
+                let p = rng.range(0, n as i64 + 1) as i32;
+                let ops = [KOp::Le { t, p }, KOp::Get { t, k: p }, KOp::Lt { t, p }, KOp::By { t, th: 2 * p + 1 }];
+                let r = rng.range(0, 3) as usize;
+                s.apply(&ops[r], 0);
+                s.apply(&ops[(r + 1) % 4], 0);
+            }
+        }
+        s.apply(&KOp::Export { t: 101 }, 0);
+        // the same size in blocks: the front expires late, the back half early / half never - after the first
+        // purge the earliest expiration left sits in the untouched front (and, mirrored, in the back)
+        for mirrored in [false, true] {
+            s.reset(0);
+            for k in 1..=n {
+                let front = if mirrored { k > 100 } else { k <= 100 };
+                let e = if front { 50 + k % 30 } else if k % 2 == 1 { 20 } else { 500 };
+                let v = s.next_value(k, e);
+                s.apply(&KOp::Ins { k, e, v, t: 0 }, 0);
+            }
+            for t in [25, 49, 60, 85, 100] {
+                for p in [0, 1, 9, 10, 11, 50, 99, 100, 101, 102, 150, 151, 199, 200, 201] {
+                    let ops = [KOp::Le { t, p }, KOp::Get { t, k: p }, KOp::Lt { t, p }];
+                    let r = ((t + p) % 3) as usize;
+                    s.apply(&ops[r], 0);
+                    s.apply(&ops[(r + 1) % 3], 0);
+                }
+            }
+            s.apply(&KOp::Export { t: 100 }, 0);
         }
     }
     if rounds.contains('C') {
@@ -1006,6 +1059,8 @@ pub fn run_scale<C: KeyColl>(tr: &mut Trace, seed: u64, rounds: &str, deep: i32)
         let n = deep;
         // (1) a deep tree of live entries: look-ups at both ends, export of all of them
         s.snap_every = 1 << 40;
+        s.obs_every = 0; // (no observation sweeps over collections of this size)
+        s.keys = n + 2;
         s.reset(0);
         s.apply(&KOp::Bulk { lo: 1, hi: n, e: 1000, t: 0, ord: 0 }, 0);
         for p in [n, n - 1, n / 2, 1, 0, n + 1] {
@@ -1014,6 +1069,33 @@ pub fn run_scale<C: KeyColl>(tr: &mut Trace, seed: u64, rounds: &str, deep: i32)
             s.apply(&KOp::Lt { t: 1, p }, 0);
         }
         s.apply(&KOp::Export { t: 1 }, 0);
+        // (3) a populated arena of more than 4096 slots is cleared and used again with staggered expirations
+        s.reset(0);
+        s.apply(&KOp::Bulk { lo: 1, hi: (n / 4).max(4200), e: 1000, t: 0, ord: 2 }, 0);
+        s.apply(&KOp::Le { t: 0, p: 10 }, 0);
+        s.apply(&KOp::Clear, 0);
+        s.apply(&KOp::Empty, 0);
+        s.snap_every = 1;
+        s.keys = 25;
+        s.obs_every = 4;
+        let exps = [9, 5, 1, 5, 2, 1000, 3, 2, 7, 1, 4, 8, 6, 3, 1000, 2, 5, 1, 9, 4, 6, 7, 3, 8];
+        for (i, e) in exps.iter().enumerate() {
+            let k = i as i32;
+            let v = s.next_value(k, *e);
+            s.apply(&KOp::Ins { k, e: *e, v, t: 0 }, 0);
+        }
+        for t in 0..=9 {
+            for p in [0, 1, 5, 11, 12, 17, 23, 24] {
+                let ops = [KOp::Le { t, p }, KOp::Get { t, k: p }, KOp::Lt { t, p }];
+                for i in 0..3 {
+                    s.apply(&ops[((t + p) as usize + i) % 3], 0);
+                }
+            }
+        }
+        s.apply(&KOp::Export { t: 9 }, 0);
+        s.snap_every = 1 << 40;
+        s.obs_every = 0;
+        s.keys = n + 2;
         // (2) the same size, all stale at once between two survivors
         s.reset(0);
         let v = s.next_value(0, 1000);
